@@ -166,6 +166,19 @@ def IR.patchOkB (ir : IR) (p : Patch) : Bool :=
     | .block b => ids.contains b
     | _ => true)
 
+/-- the symbols an expression names are among `ids` -/
+def exprInB (ids : List Nat) (e : SymExpr) : Bool := ids.contains e.sym1 && (e.kind != 1 || ids.contains e.sym2)
+
+/-- every symbolic expression names symbols of the module (executable form of `ExprOk []`) -/
+def IR.exprOkB (ir : IR) : Bool :=
+  ir.intervals.all (fun iv => iv.symExprs.all (fun ke => exprInB (ir.syms.map (·.id)) ke.2))
+
+/-- the expressions of a patch name module symbols or its own (executable form of `PatchExprOk`) -/
+def IR.patchExprOkB (ir : IR) (p : Patch) : Bool :=
+  let ids := ir.syms.map (·.id) ++ p.syms.map (·.id)
+  p.text.symExprs.all (fun ke => exprInB ids ke.2) &&
+  p.others.all (fun x => x.1.symExprs.all (fun ke => exprInB ids ke.2))
+
 /-- the request as a listing edit (what `Listing.spliceSpec` consumes): only offset, removed
 length and inserted bytes matter for the bytes -/
 def Mod.toLEdit (m : Mod) : LEdit :=
